@@ -25,12 +25,13 @@ ID = "C09"
 TITLE = "Calls never modify caller data or hyper-parameters; refits start from scratch"
 TECHNIQUE = ("Hypothesis PBT over a table of every public entry point x argument layouts (C / F order, strided view, read-only): byte-wise "
              "snapshots before/after, hyper-parameter snapshots around fit; model-based refit histories (model = fresh estimator fitted "
-             "on the last data) and repeated-call comparison")
+             "on the last data, also after a hyper-parameter was changed between two fits) and repeated-call comparison")
 LEVEL = ("Generated-input exploration: every enumerated public constructor / fit / transform / predict / score / metric function is "
          "called with each array argument in a drawn memory layout and compared byte-wise afterwards; constructor hyper-parameters are "
          "compared around fit; generated two- and three-step fit histories must leave exactly the public state of a fresh estimator fitted "
          "on the last data (attributes AND behaviour: transform / predict / score outputs of the refitted vs the fresh estimator, with estimator-valued "
-         "arguments shared across the history); query methods are read-only (fitted state byte-identical before/after, repeated queries equal); "
+         "arguments shared across the history; also with one hyper-parameter changed by set_params / assignment between two fits, against an "
+         "estimator constructed with the new value); query methods are read-only (fitted state byte-identical before/after, repeated queries equal); "
          "repeated calls must agree. No absence claim: strength = the counted distinct executed (entry, layout, data) cases.")
 BUDGET = {"quick": 260, "thorough": 12000}
 WATCHDOG = {"quick": 60, "thorough": 120}
